@@ -85,6 +85,9 @@ class OMPTaskTrans(ParallelLoopTrans):
                 "containing a code block")
 
         super().validate(node, options)
+        if options and options.get("collapse"):
+            raise TransformationError(
+                "Collapse attribute should not be set for OMPTaskTrans")
         # Check we can apply all the required transformations on any sub
         # nodes
         root_ancestor = node.root
